@@ -252,13 +252,15 @@ StepsOf(c, phase) ==
       [] phase = "filter" -> <<"ApplyFilter">>
 Program(c) == FoldLeft(LAMBDA acc, ph : acc \o StepsOf(c, ph), <<>>, Order)
 
-Init ==
-    /\ ledger \in Ledgers
+InitWith(L) ==
+    /\ ledger \in L
     /\ cfg = [open |-> 0, close |-> -1, clear |-> FALSE, filter |-> NoFilter]
     /\ status = "parse"
     /\ pc = <<>>
     /\ entries = ledger
     /\ report = ledger
+
+Init == InitWith(Ledgers)
 
 \* the statement arrives: any combination of the clauses and a filter expression
 Statement ==
